@@ -519,8 +519,12 @@ fn files_field(pats: &[&str], layout: usize) -> String {
     }
 }
 
-const INLINE_LIC: [&str; 5] = ["MIT", "GPL", "BSD", "MIT\n inline mit text", "GPL\n inline gpl\n .\n more"];
-const STANDALONE: [&str; 7] = [
+const INLINE_LIC: [&str; 9] = [
+    "MIT", "GPL", "BSD", "MIT\n inline mit text", "GPL\n inline gpl\n .\n more",
+    // names with white space at the end / inside / a tab: compared byte for byte with the stand-alone names
+    "GPL-2+ ", "GPL-2+ with exception", "GPL-2+\t", "GPL-2+",
+];
+const STANDALONE: [&str; 12] = [
     "License: MIT\n mit text\n",
     "License: MIT\n",
     "License: GPL\n gpl text\n",
@@ -528,6 +532,11 @@ const STANDALONE: [&str; 7] = [
     "License: MIT\n second mit text\n",
     "License: BSD\nComment: c\n",
     "License: BSD\n bsd\nComment: c\n",
+    "License: GPL-2+ \n trailing blank text\n",
+    "License: GPL-2+\n plain text\n",
+    "License:  GPL-2+ with exception\n exception text\n",
+    "License: GPL-2+\t\n tab text\n",
+    "License: GPL-2+ \n",
 ];
 
 fn files_para(pats: &[&str], layout: usize, lic: &str, id: usize) -> String {
@@ -547,6 +556,25 @@ fn gen_files(thorough: bool, rng: &mut Rng, out: &mut Out) {
         STANDALONE[2].to_string(),
         STANDALONE[4].to_string(),
     ];
+    // licence names with white space at the end: the reference by name is byte for byte
+    let wblocks: Vec<String> = vec![
+        files_para(&["*"], 0, "MIT\n inline", 0),
+        files_para(&["a/*"], 0, "GPL-2+ ", 1),
+        files_para(&["a/b"], 0, "GPL-2+", 2),
+        STANDALONE[7].to_string(),
+        STANDALONE[8].to_string(),
+        STANDALONE[10].to_string(),
+    ];
+    for seq in lists_upto(&wblocks, 3) {
+        let mut t = String::from(good_header);
+        for b in &seq {
+            t.push('\n');
+            t.push_str(b);
+        }
+        for p in ["a/b", "a/x", "x"] {
+            find_req(out, &t, p);
+        }
+    }
     let spaths = ["a/b", "b/y", "x", "a/x b/y", "a/* b/*", ""];
     for seq in lists_upto(&blocks, if thorough { 4 } else { 3 }) {
         let mut t = String::from(good_header);
